@@ -289,23 +289,28 @@ def h_tracker_step(i):
             for nm in ("plain", "a:b", "dir:x:1"):
                 for pre in (0, 1, 2):
                     for rt_ in ("file", "folder", "nosuchtype"):
-                        r = _tracker_step_once({"nfields": 3, "cmd": cmd, "rtype": rt_, "name": nm, "pre_count": pre})
-                        tried.append(r.get("line"))
-                        if r.get("reproduced"):
-                            r["search"] = f"{len(tried)} requests tried"
-                            return r
+                        for cf in ((False, True) if (cmd == "MAYBE_UNLINK" and pre == 1 and rt_ != "nosuchtype") else (False,)):
+                            r = _tracker_step_once({"nfields": 3, "cmd": cmd, "rtype": rt_, "name": nm, "pre_count": pre, "cleanup_fails": cf})
+                            tried.append(r.get("line"))
+                            if r.get("reproduced"):
+                                r["search"] = f"{len(tried)} requests tried"
+                                r["cleanup_fails"] = cf
+                                return r
         return {"reproduced": False, "search": f"{len(tried)} requests tried, none violates the reference step"}
     tried = []
     for nm in (i.get("name"), "a:b", "dir:x:1"):
-        j = dict(i)
-        j["name"] = nm
-        if nm is not i.get("name"):
-            j["nfields"] = max(3, i.get("nfields", 3) if isinstance(i.get("nfields"), int) else 3)
-        r = _tracker_step_once(j)
-        tried.append(r.get("line"))
-        if r.get("reproduced"):
-            r["tried"] = tried
-            return r
+        for cf in (False, True):
+            j = dict(i)
+            j["name"] = nm
+            j["cleanup_fails"] = cf
+            if nm is not i.get("name"):
+                j["nfields"] = max(3, i.get("nfields", 3) if isinstance(i.get("nfields"), int) else 3)
+            r = _tracker_step_once(j)
+            tried.append(r.get("line"))
+            if r.get("reproduced"):
+                r["tried"] = tried
+                r["cleanup_fails"] = cf
+                return r
     r["tried"] = tried
     return r
 
@@ -354,8 +359,15 @@ def _tracker_step_once(i):
         sys.path.insert(0, %r)
         import loky.backend.resource_tracker as rt
         calls = []
+        fails = %r
+        def mk(t):
+            def rec(n):
+                calls.append([t, n])
+                if fails:
+                    raise OSError("cleanup failed (injected)")
+            return rec
         for t in list(rt._CLEANUP_FUNCS):
-            rt._CLEANUP_FUNCS[t] = (lambda t: (lambda n: calls.append([t, n])))(t)
+            rt._CLEANUP_FUNCS[t] = mk(t)
         reports = []
         sys.excepthook = lambda *a: reports.append(a[0].__name__)
         import warnings; warnings.simplefilter("ignore")
@@ -367,7 +379,7 @@ def _tracker_step_once(i):
         out_fd = os.dup(1)        # main() closes sys.stdout
         rt.main(r)
         os.write(out_fd, (json.dumps({"calls": calls, "reports": reports}) + chr(10)).encode())
-    """) % (sys.argv[3] if len(sys.argv) > 3 else "/repo", setup + [line])
+    """) % (sys.argv[3] if len(sys.argv) > 3 else "/repo", bool(i.get("cleanup_fails")), setup + [line])
     p = subprocess.run([sys.executable, "-c", prog], capture_output=True, text=True, timeout=60)
     try:
         obs = json.loads([l for l in p.stdout.splitlines() if l.startswith("{")][-1])
@@ -630,6 +642,67 @@ def h_batch(i):
         except BaseException as e:
             out.append({"reproduced": False, "error": f"harness crashed: {e!r}"})
     return {"reproduced": any(r.get("reproduced") for r in out), "results": out}
+
+
+def h_tracker_sweep_w_error(i):
+    """F5: the real tracker main() run the way loky starts it when the parent runs with -W error (flags are forwarded): two names are still
+    registered at end of file and their clean-up fails; every one of them must still be attempted."""
+    import subprocess
+    import textwrap
+    prog = textwrap.dedent("""\
+        import os, sys, json
+        sys.path.insert(0, %r)
+        import loky.backend.resource_tracker as rt
+        calls = []
+        def failing(n):
+            calls.append(n)
+            raise OSError("cleanup failed (injected)")
+        for t in list(rt._CLEANUP_FUNCS):
+            rt._CLEANUP_FUNCS[t] = failing
+        sys.excepthook = lambda *a: None
+        r, w = os.pipe()
+        os.write(w, b"REGISTER:a:file" + bytes([10]) + b"REGISTER:b:file" + bytes([10]) + b"REGISTER:c:semlock" + bytes([10]))
+        os.close(w)
+        out_fd = os.dup(1)
+        err = None
+        try:
+            rt.main(r)
+        except BaseException as e:
+            err = type(e).__name__
+        os.write(out_fd, (json.dumps({"calls": calls, "escaped": err}) + chr(10)).encode())
+    """) % (sys.argv[3] if len(sys.argv) > 3 else "/repo",)
+    p = subprocess.run([sys.executable, "-W", "error", "-c", prog], capture_output=True, text=True, timeout=60)
+    try:
+        obs = json.loads([l for l in p.stdout.splitlines() if l.startswith("{")][-1])
+    except Exception:
+        return {"reproduced": False, "error": (p.stderr or p.stdout)[-600:]}
+    ok = sorted(obs["calls"]) == ["a", "b", "c"] and obs["escaped"] is None
+    return {"reproduced": not ok, "observed": obs, "expected": {"calls": ["a", "b", "c"], "escaped": None}}
+
+
+_F11_PROG = 'import os, sys, time, tempfile\nos.environ["LOKY_MAX_CPU_COUNT"] = "1"\nsys.path.insert(0, "/repo")\nfrom loky import get_reusable_executor\nN = 6\nd = tempfile.mkdtemp(prefix="f11-")\ndef task(i, d, n, wait):\n    import os, time\n    open(os.path.join(d, f"started-{i}"), "w").close()\n    t0 = time.time()\n    while time.time() - t0 < wait:\n        if len([f for f in os.listdir(d) if f.startswith("started-")]) >= n:\n            return True\n        time.sleep(0.05)\n    return False\nif __name__ == "__main__":\n    if os.environ.get("F11_MODE") == "resize":\n        get_reusable_executor(max_workers=1, timeout=30).submit(int, 0).result()\n    ex = get_reusable_executor(max_workers=N, timeout=30)\n    futs = [ex.submit(task, i, d, N, 8) for i in range(N)]\n    time.sleep(4)\n    started = len([f for f in os.listdir(d) if f.startswith("started-")])\n    print("call queue capacity:", ex._call_queue._maxsize, "max_workers:", ex._max_workers, "workers:", len(ex._processes))\n    print("tasks running simultaneously after 4s:", started, "of", N)\n    res = [f.result() for f in futs]\n    print("each task saw all running:", res)\n    ok = started == N and all(res)\n    print("PASS" if ok else "FAIL")\n    ex.shutdown(kill_workers=True)\n    os._exit(0 if ok else 1)\n'
+
+
+def h_queue_capacity_starvation(i):
+    """F11: a reusable executor on a host where cpu_count() is 1 (LOKY_MAX_CPU_COUNT=1, e.g. a one-CPU container) asked for 6 workers: its call queue
+    holds 2*cpu_count()+1 = 3 items; a burst of 6 long tasks submitted right after creation must still run 6 at a time."""
+    import subprocess
+    import tempfile
+    repo = sys.argv[3] if len(sys.argv) > 3 else "/repo"
+    with tempfile.TemporaryDirectory(prefix="f11-") as td:
+        path = os.path.join(td, "prog.py")
+        with open(path, "w") as fh:
+            fh.write(_F11_PROG.replace('"/repo"', repr(repo)))
+        out = os.path.join(td, "out.txt")
+        with open(out, "w") as fo:
+            try:
+                subprocess.run([sys.executable, path], stdout=fo, stderr=subprocess.DEVNULL, stdin=subprocess.DEVNULL, timeout=100, start_new_session=True,
+                               env={**os.environ, "F11_MODE": str(i.get("mode", "create"))})
+            except subprocess.TimeoutExpired:
+                pass
+        lines = [l for l in open(out, errors="replace").read().splitlines() if l and "leaked" not in l]
+    failed = any(l.startswith("FAIL") for l in lines)
+    return {"reproduced": failed, "observed": lines[-4:], "expected": "6 of 6 tasks running simultaneously (max_workers=6, enough pending work)"}
 
 
 def main():
